@@ -313,9 +313,13 @@ def front_mode(prog, sl, with_spec=True):
     set_fixed(prog, sl.get('fixed', ()))
 
     def setup(ex):
-        cells = front.sym_tokens('a', n, alpha, labels)
+        if sl.get('items'):
+            cells = front.attr_item_cells(target, sl['items'], sl.get('head', target in ('fn', 'mod')), sl.get('reduced', False))
+        else:
+            cells = front.sym_tokens('a', n, alpha, labels)
         pb = front.PBuf(cells, 0, 'a')
-        ex.notes['input'] = dict(mode='front', target=target, variant=variant, n=n)
+        ex.notes['input'] = dict(mode='front', target=target, variant=variant, n=n, items=sl.get('items'),
+                                 head=sl.get('head', target in ('fn', 'mod')), reduced=sl.get('reduced', False))
 
         def run(ex, pb):
             body = prog.ix.methods[(ATTR_TYPE[target], 'Parse', 'parse')]
